@@ -21,13 +21,16 @@ func init() {
 			"Roland checksum rule: (sum of address + payload/size bytes + checksum) mod 128 == 0",
 			"ids and addresses are 7-bit values (sysex data bytes)",
 		},
-		Require: []string{"dataset_values", "request_values", "corruptions_rejected", "checksum_nonzero", "locate_values", "command_values"},
+		Require: []string{"dataset_values", "request_values", "corruptions_rejected", "checksum_nonzero", "locate_values", "command_values", "held_across_later_build"},
 		Run:     runC18,
 	})
 }
 
 func runC18(c *mon.Ctx) {
 	nvals := c.N(20_000, 60_000)
+	// built messages are kept across later builds: a value returned by SysEx() must stay what it was
+	var prevBt, prevCopy []byte
+	var prevDesc any
 	c.Each("roland", nvals, func(i int64, r *mon.Rand) {
 		var m sysex.Manufacturer
 		m.ManufacturerID = sysex.ManufacturerID(r.Byte() & 0x7F)
@@ -61,6 +64,14 @@ func runC18(c *mon.Ctx) {
 			c.Count("dataset_values", 1)
 		}
 		bt := m.SysEx()
+		if prevBt != nil {
+			c.Count("held_across_later_build", 1)
+			if !bytes.Equal(prevBt, prevCopy) {
+				c.Violation("built-bytes-changed", fmt.Sprintf("the bytes returned by an earlier SysEx() call changed when the next message was built: were %s, now %s", mon.Hex(head(prevCopy, 40)), mon.Hex(head(prevBt, 40))), prevDesc, mon.Hex(head(prevCopy, 40)), mon.Hex(head(prevBt, 40)))
+			} else if p, err := sysex.Parse(prevBt); err != nil || p.Address != [3]byte{prevCopy[5], prevCopy[6], prevCopy[7]} {
+				c.Violation("built-bytes-changed", fmt.Sprintf("an earlier built message no longer parses after a later build: %v", err), prevDesc, nil, nil)
+			}
+		}
 		// layout and checksum rule
 		wantHead := []byte{0xF0, byte(m.ManufacturerID), m.DeviceID, m.ModelID, 0x12, m.Address[0], m.Address[1], m.Address[2]}
 		if m.InfoRequest {
@@ -133,6 +144,7 @@ func runC18(c *mon.Ctx) {
 		if i < 2 {
 			c.Sample("roland", map[string]any{"value": short(m), "bytes": mon.Hex(bt)})
 		}
+		prevBt, prevCopy, prevDesc = bt, append([]byte(nil), bt...), short(m)
 	})
 
 	// the library's own documented example must parse
